@@ -19,7 +19,7 @@ import (
 	sdk "github.com/cosmos/cosmos-sdk/types"
 )
 
-func init() { props["C07"] = runC07 }
+func init() { props["C07"] = func(r *Rec) { runC07(r); recFor(r, "C07") } }
 
 func u32s(l []uint32) string {
 	if len(l) == 0 {
